@@ -958,7 +958,7 @@ def binary(conf_mat):
         EDS = 2*math.log(Pobs/nval)/math.log(TP/nval)-1
 
     ORSS = np.nan
-    if theta > -1 and theta < 1:
+    if theta >= 0:
         ORSS = (theta-1)/(theta+1)
 
     # Random values
